@@ -65,8 +65,10 @@ ASort(s)   == Out(SortSeq(s, LAMBDA a, b : a < b), R(OK, NoVal, <<>>))
 \* (the trace format reports the members in d; no destructor runs)
 Final(r)   == [rc |-> r.rc, out |-> r.out, d |-> r.d, leak |-> 0]   \* terminal calls: no library allocation of the history stays live
 AFinish(s) == Out(<<>>, Final(R(OK, Len(s), s)))
-\* ares_array_destroy: destructor on every member, in index order
-ADestroy(s) == Out(<<>>, Final(R(OK, NoVal, s)))
+\* ares_array_destroy: destructor on every member exactly once (the order is not documented: d is
+\* compared as a sorted sequence)
+Sorted(s)   == SortSeq(s, LAMBDA a, b : a < b)
+ADestroy(s) == Out(<<>>, Final(R(OK, NoVal, Sorted(s))))
 ACreate     == Out(<<>>, R(OK, NoVal, <<>>))
 
 \* what the harness can see of the value after every call
